@@ -116,7 +116,7 @@ def discharge(obls, budget_s=20.0, jobs=None, progress=None):
             p = ctx.Process(target=_poly_worker, args=(payload, child))
         else:
             tactic = ob.meta.get("tactic") if stage == 0 else None
-            b_ = min(budget_s, 3.0) if ob.kind in ("cover", "canary") else budget_s
+            b_ = min(budget_s, 3.0) if ob.kind in ("cover", "canary") else (min(budget_s, 6.0) if ob.meta.get("finding_witness") else budget_s)
             p = ctx.Process(target=_smt_worker, args=(payload, ob.expect, int(b_ * 1000), child, tactic))
         p.start()
         child.close()
